@@ -299,6 +299,10 @@ func (fx *fnExec) applyContract(st *state, in ssa.Instruction, ct *Contract, inf
 		fx.assume("(>= " + na + " " + st.alloc + ")")
 		st.alloc = na
 	}
+	for _, pw := range fx.pendingWT {
+		fx.assume(fx.wellTyped(pw[0].(string), pw[1].(types.Type), st.alloc))
+	}
+	fx.pendingWT = nil
 	// results
 	var res val
 	post := map[string]sval{}
@@ -478,6 +482,9 @@ func (fx *fnExec) havocLoc(st *state, l loc, in ssa.Instruction) {
 	case l.idx == "":
 		st.heap[l.arr] = fx.fresh("h!"+l.arr, l.sort)
 		fx.heapSort[l.arr] = l.sort
+		if wf := fx.heapWF(l.arr, st.heap[l.arr], st.alloc); wf != "" {
+			fx.assume(wf)
+		}
 		fx.assignsObl(l.arr, "(- 1)", in, in.Pos())
 	default:
 		if !strings.HasPrefix(l.idx, "new!") {
@@ -486,6 +493,9 @@ func (fx *fnExec) havocLoc(st *state, l loc, in ssa.Instruction) {
 		h := fx.heapGet(st, l.arr, l.sort)
 		rs := arrayRange(l.sort)
 		nv := fx.fresh("hv", rs)
+		if t := fx.heapElemType[l.arr]; t != nil && fx.heapDepth[l.arr] == 1 {
+			fx.pendingWT = append(fx.pendingWT, [2]interface{}{nv, t})
+		}
 		fx.heapSet(st, l.arr, l.sort, "(store "+h+" "+l.idx+" "+nv+")")
 	}
 }
